@@ -53,13 +53,13 @@ Runs(s, st) ==
 \* what a stage writes under the project root (classes), as the code does it
 RootWrites(s, st) ==
   IF TempPath(s) THEN
-     (IF st = "postprocess" /\ s.cwd = "root" THEN {"rootOther"} ELSE {})     \* ruff's cache lands in the cwd
+     {}    \* (before fix 7182f61 ruff's cache landed in the cwd: {"rootOther"} when cwd = "root" and st = "postprocess")
   ELSE
      CASE st = "setup"       -> {"inOut", "ancestorInit"} \cup (IF s.core # "embedded" THEN {"inCore"} ELSE {})
        [] st = "exceptions"  -> {"inCore"}
        [] st = "core"        -> {"inCore"}
        [] st \in {"models", "endpoints", "client", "mocks", "clientinit"} -> {"inOut"}
-       [] st = "postprocess" -> {"inOut", "inCore"} \cup (IF s.cwd = "root" THEN {"rootOther"} ELSE {})
+       [] st = "postprocess" -> {"inOut", "inCore"}          \* ruff runs with --no-cache since fix 7182f61
        [] OTHER              -> {}
 
 \* ModelsEmitter._generate_model_file catches every exception of a failing write, logs it and goes on
